@@ -101,6 +101,15 @@ def priority(ctx) -> None:
     ctx.check(core.src(lt.body[-1]) == 'return self.priority < other.priority', 'C09.priority', lt, 'slots compare by priority', lt.node, key='slot:lt')
     pr = prog.func(f'{imp.ref}.Slot.priority')
     ctx.check("float('inf')" in core.src(pr.node) and 'self._descriptor.priority' in core.src(pr.node), 'C09.priority', pr, 'explicit instances outrank configured feeds; configured feeds use their configured priority', pr.node, key='slot:priority')
+    # configured priorities keep their full (fractional) value and their field position
+    fe = prog.func('forml.setup._provider:Feed._extract')
+    ret = next((r for r in core.walk_local(fe.node) if isinstance(r, ast.Return)), None)
+    okp = ret is not None and isinstance(ret.value, ast.Tuple) and isinstance(ret.value.elts[0], ast.List) and [core.src(e) for e in ret.value.elts[0].elts] == ['reference', 'float(priority)']
+    ctx.check(okp, 'C09.priority', fe, 'the configured priority is kept as a float (no truncation: 1.2 and 1.7 are different priorities) in the (reference, priority) field order', ret or fe.node, key='feed:priority-float')
+    fields = prog.cls('forml.setup._provider:Feed').assigns.get('FIELDS')
+    ctx.check(fields is not None and core.src(fields) == "('reference', 'priority', 'params')", 'C09.priority', 'forml.setup._provider:Feed', 'feed section fields are (reference, priority, params)', key='feed:fields', loc='forml/setup/_provider.py')
+    flt = prog.func('forml.setup._provider:Feed.__lt__')
+    ctx.check('self.priority < other.priority' in core.src(flt.node) and 'self.priority == other.priority' in core.src(flt.node), 'C09.priority', flt, 'feed descriptors order by priority (ties by reference)', flt.node, key='feed:lt')
     it = prog.func(f'{imp.ref}.__iter__')
     ctx.check('for feed in self._feeds' in core.src(it.node) and 'yield feed.instance' in core.src(it.node), 'C09.priority', it, 'iteration follows the sorted pool', it.node, key='iter')
     m = prog.func(f'{imp.ref}.match')
